@@ -72,6 +72,8 @@ var holePrograms = []tplSeg{
 	{Hole: "x = x + 1"}, {Hole: "z = 'w'; z"}, {Hole: "x; y"}, {Hole: "2d1"}, {Hole: "x > 1 ? 'big' : 'small'"},
 	{Hole: "if x {7}", NoVal: true}, {Hole: "if 0 {7} else {8}", NoVal: true}, {Hole: "i=0; while i<2 {i=i+1}", NoVal: true}, {Hole: "if x {x = 9}; x"},
 	{Hole: "`n{x}m`"}, {Hole: "'}'"}, {Hole: "func g(){5}; g()"},
+	{Hole: "i=0; while i<1 { i=i+1; `q{ if 1 {break} }` }", NoVal: true}, {Hole: "i=0; while i<2 { i=i+1; `{% continue %}r` }", NoVal: true}, {Hole: "while 1 { `s{break}` }", NoVal: true},
+	{Hole: "i=0; while i<2 { i=i+1; if i { `{% if 1 { continue } %}` } }; i"},
 }
 
 var tplLits = []string{"", "a", "中 b", "'\"", "\\n", "%}"}
@@ -269,7 +271,7 @@ func c13Run(raw json.RawMessage) harn.Result {
 func init() {
 	harn.Register(&harn.Check{
 		ID:   "C13",
-		Rule: "literals: every text of <= 4 (thorough 5) symbols over {a ' \" ` \\ { } % LF CR TAB CJK 0x1E space} x 4 delimiter styles, spelled with the documented escapes (raw and escaped control characters), plus size ladders; must evaluate to exactly the text with empty rest. templates: every template of <= 2 (thorough 3) segments (6 literal texts, 21 hole programs x 2 hole styles incl. assignments, blocks, nested template, function definition) x both template delimiters, 3-segment shapes, nesting ladders 1..24; result must equal the concatenation of literal texts and the string form of each hole's value obtained by evaluating the hole program alone, in order, on a second VM in the same state; variables must match too. Distinct by source text; out-of-domain (text, delimiter) pairs are counted separately and are not cases.",
+		Rule: "literals: every text of <= 4 (thorough 5) symbols over {a ' \" ` \\ { } % LF CR TAB CJK 0x1E space} x 4 delimiter styles, spelled with the documented escapes (raw and escaped control characters), plus size ladders; must evaluate to exactly the text with empty rest. templates: every template of <= 2 (thorough 3) segments (6 literal texts, 25 hole programs x 2 hole styles incl. assignments, blocks, nested template, function definition) x both template delimiters, 3-segment shapes, nesting ladders 1..24; result must equal the concatenation of literal texts and the string form of each hole's value obtained by evaluating the hole program alone, in order, on a second VM in the same state; variables must match too. Distinct by source text; out-of-domain (text, delimiter) pairs are counted separately and are not cases.",
 		Enumerate: c13Enumerate,
 		Run:       c13Run,
 		Budget:    map[string]time.Duration{"quick": 150 * time.Second, "thorough": 40 * time.Minute},
